@@ -4,5 +4,5 @@ cd /verif
 for id in "$@"; do
   prop=$(echo $id | cut -c1-3)
   tools/seediso.sh >/dev/null
-  python3 tools/seedrecheck.py $id $prop --root /tmp/sv 2>&1 | tail -1
+  python3 tools/seedrecheck.py $id $prop --root ${SV_ROOT:-/tmp/sv} 2>&1 | tail -1
 done
